@@ -190,6 +190,9 @@ func IDString(t *rapid.T, label string, allowEmpty bool) string {
 		}
 
 		fallthrough
+	case 3:
+		// IDs made of the characters lists of IDs are written with.
+		return rapid.StringMatching(`[ab, ]{1,4}`).Draw(t, label+"-sep")
 	default:
 		return rapid.StringMatching(`[a-c1-3]{1,3}`).Draw(t, label)
 	}
